@@ -65,7 +65,7 @@ def handle (op : String) (args impl : List String) : Option Out :=
   | "probe_version" => some <|
     let v := [libVersion.x, libVersion.y, libVersion.z]
     cmp "probe_version" ["ok", fmtVer v, fmtVer v, fmtStr Gen.fileFormat] impl
-  | "vgate" => some <|
+  | "vgate" | "vgate2" => some <|      -- vgate2: a forced read-write session on the same file is open meanwhile; the gate judges each open on its own
     match args with
     | [vtok, ftok, idtok, mtok, ftok2] =>
       -- the flag word: Force is bit 0, whatever other bits are set
